@@ -45,6 +45,9 @@ def _work(args):
         for f in (2, 3, 7):
             variants.append({k: (v if v == 1 else v * f) for k, v in base.items()})
         variants.append({k: (v if v == 1 else v * g.rng.choice([2, 3, 5])) for k, v in base.items()})
+        # equalities between axis lengths must not matter either: one assignment with all non-1 lengths equal, one with all of them pairwise distinct
+        variants.append({k: (v if v == 1 else 3) for k, v in base.items()})
+        variants.append({k: (v if v == 1 else 2 + i) for i, (k, v) in enumerate(sorted(base.items()))})
         texts = []
         case0 = None
         for sz in variants:
